@@ -197,6 +197,20 @@ CLAIMED = {
         "technique": "Coq proof (integer arithmetic, list induction) on a hand rendering model; exact string differential",
         "design": "DESIGN.md section 5, C16",
     },
+    "C18": {
+        "text": "Coq theorems (props/C18.v) over genX/Aggr.v + genX/Mean.v: the text REGENERATED from aggr.py / mean.py read in an "
+                "exception semantics of Python numbers (plain int / float, utils.Int / Float, raised exception; IEEE specials; "
+                "Python operator dispatch incl. float op Int staying plain): for ALL input statistics that are numbers (any sign "
+                "and size - every rounding error -, inf, NaN), all configurations and every total distribution family, "
+                "analyze_aggregates returns a result with no raising field; the utils.div rule x/0 = +inf (x>0) / NaN; the point "
+                "fields keep their exact values; the sqrt clamp and the saturating exp are necessary (witness lemmas). Tie: "
+                "regeneration + primitive-operator differential + aggregates-level raise/kind/class differential",
+        "note": "trusted: Coq kernel (no axioms), translator, hand-written semantics lib/PreludeX.v (compared with the real "
+                "operators each run), scipy frozen distributions total; float overflow of x**2 excluded; backends via oracle only",
+        "technique": "Coq proof (kind/taint derivation over a translator-generated model under an exception semantics); "
+                     "operator-level and aggregates-level differential; degenerate-data oracle on five backends",
+        "design": "DESIGN.md section 5, C18",
+    },
     "C20": {
         "text": "Coq theorems (props/C20.v): (a) over the parameter expressions of every rng.* call and the _check_params domain "
                 "REGENERATED from datasets.py - on the whole accepted domain every distribution parameter is valid in both "
